@@ -109,6 +109,8 @@ inductive Emit
   | fltInf (ty : String) (neg : Bool)
   /-- `pub const N: &[u8; len] = b"…\0";` (bytes include the terminating NUL) -/
   | bytes (bs : List Nat)
+  /-- `pub const N: &CStr = c"…";` (`--generate-cstr`, no interior NUL) -/
+  | cstr (bs : List Nat)
   deriving DecidableEq, Repr
 
 def classifyFloat (ty : String) (bits : Nat) : Emit :=
@@ -122,11 +124,15 @@ def classifyFloat (ty : String) (bits : Nat) : Emit :=
 def intLiteral (signed : Bool) (v : Int) : List Char :=
   if signed then printInt v else printNat (v % 18446744073709551616).toNat
 
-def emitMacro (o : MOpts) : Res → Option Emit
+/-- `cstr` = `--generate-cstr` (with a Rust target that has C-string literals): a string
+becomes a `&CStr` when `CStr::from_bytes_with_nul` accepts it, i.e. no interior NUL -/
+def emitMacroC (o : MOpts) (cstr : Bool) : Res → Option Emit
   | .int v => (macroKind o v).map fun k => .int k.rustName (intLiteral k.isSigned v)
   | .flt b => some (classifyFloat "f64" b)
   | .chr c => some (.chr c)
-  | .str bs => some (.bytes (bs ++ [0]))
+  | .str bs => some (if cstr && !bs.contains 0 then .cstr (bs ++ [0]) else .bytes (bs ++ [0]))
+
+def emitMacro (o : MOpts) (r : Res) : Option Emit := emitMacroC o false r
 
 /-- Rust spelling of an integer C type as bindgen prints it (`int_kind_rust_type`) -/
 def rustIntName : CTy → String
